@@ -68,7 +68,7 @@ def recipe(c: Check):
         if gate and cnt.get("NRACE", 0) < 1 and not c.broken:
             c.broken.append(dict(kind="coverage", name="the idle-boundary replay did not run although the gate is compiled in", detail=str(fb)))
         # sanity of the check itself: the branches the property names must have been reached
-        need = dict(NPKT=50, NOVERSIZE=1, NDECERR=5, NFWD=3, NSYS=4, NIDLE=1, NSOCKETS=6, NFULL=1, NCAP=1, NREPLYLOOP=1, NREFUSED=2, NALPHABET=1)
+        need = dict(NPKT=50, NOVERSIZE=1, NDECERR=5, NFWD=3, NSYS=4, NIDLE=1, NSOCKETS=6, NFULL=1, NCAP=1, NREPLYLOOP=1, NREFUSED=2, NALPHABET=1, NCFGSIZE=4, NREPLACE=2)
         for k, v in need.items():
             if cnt.get(k, 0) < v and not c.broken:
                 c.broken.append(dict(kind="coverage", name="counter %s=%s below %s: a branch the property names was not exercised" % (k, cnt.get(k, 0), v),
